@@ -777,6 +777,9 @@ func specialC14(seed int64, thorough bool) *Special {
 	}
 	sp.Rule = fmt.Sprintf("%d targets: the bytes of Persist(New(batch)) from a cold builder pool (after two GCs) are compared with the bytes after 3 random build histories (bigger and smaller batches, other chunk modes, other norm functions, builds whose norm function panics half way); then %d goroutines build concurrently for %d rounds and compare with their cold bytes; non-trivial = the pool probe reported a recycled builder object right before the compared build", nt, conc, concRounds)
 	recycled, failedBuilds := 0, 0
+	if os.Getenv("VERIF_C14_CONCURRENT_ONLY") != "" {
+		nt = 0 // the run under the race detector: only the concurrent builders
+	}
 	for t := 0; t < nt; t++ {
 		nd := g.smallSize()
 		cm := g.ChunkMode()
@@ -865,7 +868,11 @@ func specialC14(seed int64, thorough bool) *Special {
 	}
 	jobs := make([]job, conc)
 	for i := range jobs {
-		b := g.Batch(BatchOpts{NDocs: 1 + g.R.Intn(30)})
+		o := BatchOpts{NDocs: 1 + g.R.Intn(30)}
+		if i%2 == 0 { // many documents with several doc-value fields: long stretches inside the shared helpers
+			o = BatchOpts{NDocs: 150 + g.R.Intn(150), NFields: 4, NVocab: 8, ForceDV: true, AllFields: true}
+		}
+		b := g.Batch(o)
 		cm := g.ChunkMode()
 		dropPool()
 		cold, _, _ := buildBytes(Current, b, cm)
@@ -873,10 +880,12 @@ func specialC14(seed int64, thorough bool) *Special {
 	}
 	var wg sync.WaitGroup
 	var mism int64
+	start := make(chan struct{})
 	for i := range jobs {
 		wg.Add(1)
 		go func(j job) {
 			defer wg.Done()
+			<-start
 			for r := 0; r < concRounds; r++ {
 				w, _, err := buildBytes(Current, j.b, j.cm)
 				if err != nil || !bytes.Equal(w, j.cold) {
@@ -885,6 +894,7 @@ func specialC14(seed int64, thorough bool) *Special {
 			}
 		}(jobs[i])
 	}
+	close(start)
 	wg.Wait()
 	if mism > 0 {
 		sp.failf(map[string]interface{}{"seed": seed, "goroutines": conc}, "%d concurrent builds produced bytes different from the cold-start bytes", mism)
